@@ -148,6 +148,15 @@ class Generator:
                 self._vars[k] = v.strip()
                 i += 1
                 continue
+            if cmd == "define":
+                # `//@ define NAME text...`: `${NAME}` in the contract text that follows stands for this text
+                # (abbreviation for proof text that has to be repeated at several anchors)
+                mm = re.match(r"^(\w+)\s+(.*)$", rest)
+                if not mm:
+                    raise AnchorLost("bad define directive")
+                self._lits[mm.group(1)] = self._subst_lit(mm.group(2))
+                i += 1
+                continue
             if cmd == "litconst":
                 # `//@ litconst <src> <CONST> as=NAME`: the integer literal a `const` of the real source is
                 # initialised with becomes `${NAME}` in the spec text that follows (specs follow the code's constants)
